@@ -58,7 +58,7 @@ C11Inv == R.kind = "pair" =>
 \* stretched trivia: the driver ran the text with n units of trivia in one gap; the record carries the texts with one and
 \* with two units.  Both lex to the tokens of the base text and a unit is made of blanks / comment characters only, so the
 \* lexer is in the same mode after one unit as after two -- hence after n (LexerMC: trivia never changes the mode).
-TriviaUnit(u) == \A i \in 1..Len(u) : u[i] \in {32, 9, 10, 120}
+TriviaUnit(u) == \A i \in 1..Len(u) : u[i] \in {32, 9, 10, 120, 59}      \* blanks, line breaks, `;x` comment text
 DriverClaimStretch == R.kind = "stretch" =>
                         LET a == Lex(R.a.s)  b == Lex(R.b1.s)  c == Lex(R.b2.s) IN
                         /\ ~a.err /\ ~b.err /\ ~c.err /\ AbsToks(a.toks) = AbsToks(b.toks) /\ AbsToks(a.toks) = AbsToks(c.toks)
